@@ -50,6 +50,11 @@ def denote(v, n, as_idx, is_end):
     None when the argument does not denote a row/column of an axis of length n (must be refused)."""
     if v is None:
         return n if is_end else 0
+    if isinstance(v, bool):
+        v = int(v)                  # a bool is an integer in Python
+    if not isinstance(v, (int, np.integer)):
+        return None                 # floats, strings ... do not denote a row or column
+    v = int(v)
     if v < 0:
         i = n + v                   # last row/column is -1 in both conventions
     elif as_idx:
@@ -111,7 +116,13 @@ def random_requests(rng, R, C, th, tw, k):
             j = rng.randrange(4)
             n = R if j < 2 else C
             is_end = j % 2 == 1
-            mode = rng.choice(['high', 'low', 'zero', 'inverted'])
+            mode = rng.choice(['high', 'low', 'zero', 'inverted', 'type'])
+            if mode == 'type':
+                # an argument that is not an integer at all: must be refused, never truncated or parsed
+                v = req[j] if req[j] is not None else 1
+                req[j] = rng.choice([v + 0.5, float(v), str(v), [v], v + 0j])
+                out.append((*req, ai))
+                continue
             if mode == 'inverted':
                 lo, hi = (a, b) if j < 2 else (c, d)
                 if hi < n:
@@ -211,9 +222,14 @@ def with_layout(a, layout):
 
 def spell_int(v, how):
     """an integer argument as Python int / numpy integer"""
-    if v is None:
-        return None
+    if v is None or isinstance(v, bool) or not isinstance(v, (int, np.integer)):
+        return v
     return {'int': int, 'np.int64': np.int64, 'np.int32': np.int32, 'np.uint16': (lambda x: np.uint16(x) if x >= 0 else np.int16(x))}[how](v)
+
+
+def modelable(req):
+    """requests whose arguments are integers or None travel to the Lean model; the others are for the oracle only"""
+    return all(v is None or (isinstance(v, (int, np.integer)) and not isinstance(v, bool)) for v in req[:4])
 
 
 def _fetch(fn, *a, **k):
@@ -348,10 +364,11 @@ def _check_slide(ctx, cfg, requests, reqs, pending, exhaustive=False):
             r0, r1, c0, c1 = orc[1:]
             sub = want[r0:r1, c0:c1]
             if sub.size and sub.min() != sub.max():
-                formkey = tuple('n' if v is None else '-' if v < 0 else '+' for v in req[:4])
+                formkey = tuple('n' if v is None else '-' if v < 0 else '+' for v in req[:4])  # only reached for accepted integer requests
                 nontriv = ('slide', cfg['full'], R, C, th, tw, r0 % th, r1 % th, c0 % tw, c1 % tw, ai, formkey)
         ctx.case(sample=case if (cls == 'region' and ctx.evaluations % 211 == 0) else None, nontrivial_key=nontriv,
                  kind='slide', organisation='TILED_FULL' if cfg['full'] else 'TILED_SPARSE', request_class=cls,
+                 argument_types='integers' if modelable(req) else 'non-integer:' + '/'.join(type(v).__name__ for v in req[:4] if v is not None and not modelable((v,))),
                  outcome='ok' if st == 'ok' else val.split(':')[0], convention='0-based' if ai else '1-based',
                  matrix=f'{min(R, 8)}x{min(C, 8)}' if not exhaustive else 'exhaustive', tile=f'{th}x{tw}', entry=entry,
                  remainder=(min(R % th, 2), min(C % tw, 2)),
@@ -394,12 +411,13 @@ def _check_slide(ctx, cfg, requests, reqs, pending, exhaustive=False):
     reqs.append(('readRegions', {
         'frames': [_px(f) for f in frames], 'rows': R, 'cols': C, 'th': th, 'tw': tw, 'full': cfg['full'],
         'allow_missing': False, 'chan': None, 'channels': [1], 'lut': lut,
-        'requests': [list(q) for q in requests]}))
-    pending.append(('multi', [{'slide': cfg, 'request': list(q)} for q in requests], impls, 'L0', 'Image.get_total_pixel_matrix'))
+        'requests': [list(q) for q in requests if modelable(q)]}))
+    pending.append(('multi', [{'slide': cfg, 'request': list(q)} for q in requests if modelable(q)],
+                    [im_ for q, im_ in zip(requests, impls) if modelable(q)], 'L0', 'Image.get_total_pixel_matrix'))
     # ---- L2: the instruction list of the private iterator, a few requests per image
     it = getattr(im, '_iterate_indices_for_tiled_region', None)
     if it is not None and not cfg['full']:
-        for req in requests[:3]:
+        for req in [q for q in requests if modelable(q)][:3]:
             rs, re, cs, ce, ai = req
             try:
                 with it(row_start=rs, row_end=re, column_start=cs, column_end=ce, as_indices=ai, allow_missing_combinations=True) as (g, shape):
@@ -666,7 +684,7 @@ def _check_seg(ctx, cfg, reqs, pending):
                 r0, r1, c0, c1 = orc[1:]
                 exp = np.stack([E[s][r0:r1, c0:c1] for s in sub], axis=-1)
                 if st == 'ok' and exp.min() != exp.max():
-                    formkey = tuple('n' if v is None else '-' if v < 0 else '+' for v in req[:4])
+                    formkey = tuple('n' if v is None else '-' if v < 0 else '+' for v in req[:4])  # only reached for accepted integer requests
                     nontriv = ('seg', cfg['type'], str(cfg['org']), cfg['omit_empty'], R, C, th, tw, r0 % th, r1 % th, c0 % tw, c1 % tw,
                                ai, formkey, tuple(sub))
             ctx.case(sample=case if (cls == 'region' and ctx.evaluations % 211 == 0) else None, nontrivial_key=nontriv,
@@ -687,6 +705,8 @@ def _check_seg(ctx, cfg, reqs, pending):
                                         'want': exp.tolist() if exp.size <= 64 else '...'}, site='Segmentation.get_total_pixel_matrix')
                 elif cls == 'region':
                     ctx.fail(case, {'what': 'valid region refused', 'error': val}, site='Segmentation.get_total_pixel_matrix')
+            if not modelable(req):
+                continue            # oracle only
             if st == 'ok':
                 got = np.asarray(val).astype(np.int64)
                 impls.append([('ok', {'shape': list(got.shape[:2]), 'data': got[..., k].tolist()}) for k in range(len(sub))])
